@@ -12,6 +12,10 @@ The real `GatewarePHY` is simulated with two phase-related clocks (`usb_io` = 48
   kind "glue" (sub-model 3): input row = op_mode, tx_valid, tx_data[0], term_select, dp/dm_pulldown (+3 unused);
              output row = d_p.o, d_n.o, oe, pullup.o, pulldown.o (d_p.o/d_n.o/oe masked in normal mode, where they
              belong to the transmitter and are checked by kind "tx").
+  kind "phy" (sub-model 7 = `FsPhy.step phase`, the cycle-level transmit chain inside the op-mode switch): one row per
+             usb_io (48 MHz) cycle; input row = op_mode, tx_valid, tx_data, term_select, dp/dm_pulldown; output row =
+             tx_ready, d_p.o, d_n.o, oe, pullup.o, pulldown.o.  op_mode and the pull requests change at every phase of
+             a transmission; the monitor judges every usb_io cycle.
 """
 from harness.common.framework import Case
 from harness.common.rng import Rng
@@ -22,7 +26,8 @@ LEAN_MODULES = ["LunaVerif.Props.C25", "LunaVerif.Lemmas.C25Tx12", "LunaVerif.Le
                 "LunaVerif.Lemmas.C25RxFront", "LunaVerif.Lemmas.C25RxBack", "LunaVerif.Props.C25Rx",
                 "LunaVerif.Lemmas.C25RxFifo", "LunaVerif.Lemmas.C25RxFifoStream", "LunaVerif.Lemmas.C25RxFifoSpaced",
                 "LunaVerif.Lemmas.C25RxCdc", "LunaVerif.Lemmas.C25RxCdcStreams", "LunaVerif.Lemmas.C25RxCdcPacket",
-                "LunaVerif.Props.C25RxUsb", "LunaVerif.Lemmas.C25RxErrSeen", "LunaVerif.Props.C25RxUsbErr"]
+                "LunaVerif.Props.C25RxUsb", "LunaVerif.Lemmas.C25RxErrSeen", "LunaVerif.Props.C25RxUsbErr",
+                "LunaVerif.Props.C25Phy"]
 DRIVER = "Driver/C25.lean"
 REQUIRED_THEOREMS = ["decode_encode", "no_seven_ones_on_wire", "stuff_error_detected", "never_drives_in_nondriving",
                      "pulls_follow_requests",
@@ -35,7 +40,10 @@ REQUIRED_THEOREMS = ["decode_encode", "no_seven_ones_on_wire", "stuff_error_dete
                      # the clock-domain crossing (Model/Phy/FsRxCdc.lean)
                      "fifo_isolated_write", "fifo_idle", "fifo_block_write", "fifo_stream", "cdc_split", "evN_bits",
                      "evS_bits", "packet_streams", "combine", "rx_delivers_to_usb", "pays_spaced_any",
-                     "stuff_error_seen_by_usb"]
+                     "stuff_error_seen_by_usb",
+                     # the whole PHY with the operating mode changing during a transmission (Model/Phy/FsPhy.lean)
+                     "phy_never_drives_in_nondriving", "phy_pulls_follow_requests", "phy_normal_is_tx",
+                     "phy_other_modes_idle_tx", "phy_raw_drive"]
 RULE = ("tx: packets of 1..70 random / all-ones / stuffing-boundary bytes, tx_data garbage between packets, random "
         "inter-packet gaps, the producer holds each byte until tx_ready; the D+/D- waveform is compared bit by bit "
         "with the Lean `encode` and with an independent Python encoder.  txc/txp: the cycle-level Lean model of the "
@@ -54,7 +62,22 @@ RULE = ("tx: packets of 1..70 random / all-ones / stuffing-boundary bytes, tx_da
         "Lean model with the clock-domain crossing (`FsRxCdc.step phase`: both AsyncFIFOBuffered with Gray pointers, "
         "synchronizers, memory, output register, and o_pkt_in_progress) against the usb-domain outputs of the real "
         "RxPipeline usb_io cycle by usb_io cycle, all four usb clock phases.  glue: random op_mode / "
-        "tx_valid / term_select / pull-down requests every 12 MHz cycle")
+        "tx_valid / term_select / pull-down requests every 12 MHz cycle.  phy: the real GatewarePHY against the Lean "
+        "model `FsPhy.step phase` (transmit chain inside the op-mode switch) usb_io cycle by usb_io cycle on tx_ready, "
+        "d_p.o, d_n.o, oe, pullup.o, pulldown.o, all four usb clock phases, with op_mode switching between 0/1/2/3 WHILE a "
+        "transmission is in flight: a handshake-obeying producer sends short packets (all-ones / stuffing-boundary / "
+        "random bytes); per packet op_mode leaves normal mode at a usb_io-cycle offset that steps (stride 37) through "
+        "the whole range after an anchor event -- up to 16 cycles before tx_valid rises, 0..55 after it rose (before and "
+        "during SYNC), 0..39 after a non-final byte was accepted (mid-byte, stuffed bits), 0..39 after the last byte was "
+        "presented, 0..87 after tx_valid fell (each of the ~11 drain bit times, each cycle of SE0 SE0 J, and after) -- "
+        "followed by up to 2 further mode changes (durations 1..200 cycles) or 4..24 flips every 1..6 cycles (mode "
+        "'chatter'), then back to normal; tx_valid held / dropped at the switch / dropped later (also off the usb edge); "
+        "term_select and the pull-down requests toggle at random usb_io cycles throughout; mode 'async': all six inputs "
+        "change at random usb_io cycles.  Monitor per usb_io cycle: op_mode = 1 => d_p.oe = d_n.oe = 0 in the SAME "
+        "cycle (the switch is combinational in the code as it is: latency 0, measured, tag phy:nondriving-same-cycle), "
+        "raw drive in op_mode 2, pull-up / pull-down equal their requests; coverage tags from the real TxPipeline's "
+        "hidden o_oe / o_usbp / o_usbn / fit_oe and the bit stuffer's o_stall (op1-while-tx-drives, -during-se0, "
+        "-during-stuffed-bit, -while-draining, -before-sync-on-wire, change-to-N-while-tx-drives ...)")
 ASSUMPTIONS = [
     "the UTMI producer keeps tx_valid and the byte stable until tx_ready and drops tx_valid after the last tx_ready "
     "(theorems: the closed loop with `Prod`; tx_data arbitrary while tx_valid is low)",
@@ -63,6 +86,9 @@ ASSUMPTIONS = [
     "a packet starts with the transmit path quiescent: tx_valid low from reset to the first usb cycle boundary, and "
     "low for at least five bit times after the last data bit of the previous packet (i.e. until its EOP is out); "
     "TxPipeline only looks at tx_valid when its shifter runs empty, a shorter gap merges two packets",
+    "operating-mode theorems (phy_never_drives_in_nondriving, phy_pulls_follow_requests, ...): none -- any state of the "
+    "transmit chain (reachable or not), any usb clock phase, any per-usb_io-cycle history of op_mode / tx_valid / tx_data "
+    "/ term_select / pull-down requests",
     "received packets are separated by at least 4 bit times of idle (J)",
     "receive theorems: NOMINAL rate, every line symbol sampled exactly four times in the usb_io domain, both lines "
     "changing in the same sample (no SE1, no glitches), any of the four sampling phases against the receiver's idle bit "
@@ -78,7 +104,11 @@ ASSUMPTIONS = [
 PARTIAL = ("Transmit direction fully in theorems over the cycle-level model that is co-simulated against the gateware "
            "(tx_pipeline_emits_encode, each_byte_accepted_once, for all byte lists, all four clock phases, any number of "
            "packets), as are the line code (decode_encode, no_seven_ones_on_wire, stuff_error_detected) and the op-mode / "
-           "pull-up / pull-down glue.  Receive direction: over the cycle-level models of the whole receive chain and of "
+           "pull-up / pull-down glue -- the latter also with the operating mode and the pull requests changing in any "
+           "usb_io cycle of a transmission (phy_never_drives_in_nondriving, phy_pulls_follow_requests over `FsPhy.step` = "
+           "the transmit chain inside the op-mode switch, co-simulated against the real GatewarePHY by the phy cases; "
+           "what a packet cut short by a mode change looks like on the wire is not specified by the property and only "
+           "tied by co-simulation).  Receive direction: over the cycle-level models of the whole receive chain and of "
            "its clock-domain crossing (both co-simulated against the real RxPipeline cycle by cycle), the nominal-rate "
            "waveform of `encode bytes`, in any sampling phase and any usb clock phase, is delivered to the 12 MHz side as "
            "exactly start, the bytes in order with strobe while in-progress, end, with no error while in progress "
@@ -420,6 +450,11 @@ def gen_cases(tier, rng):
         out.append({"kind": "rxd", "seed": rng.u64(), "k": k, "phase": k % 4,
                     "mode": ["nominal", "drift", "nominal", "noise", "random", "nominal", "nominal", "drift"][k % 8],
                     "big": int(tier == "thorough" and k % 8 == 0)})
+    # the whole PHY with op_mode / pull requests changing at every phase of a transmission, all four usb clock phases
+    np_ = {"quick": 16, "widen": 48}.get(tier, 240)
+    for k in range(np_):
+        out.append({"kind": "phy", "seed": rng.u64(), "k": k, "phase": k % 4, "mode": _PHY_MODES[k % len(_PHY_MODES)],
+                    "cycles": 2400 if tier != "thorough" else 4000, "big": int(tier == "thorough" and k % 8 == 0)})
     return out
 
 
@@ -788,6 +823,332 @@ def run_txcycle(desc):
                 ["tx_ready", "d_p.o", "d_n.o", "oe", "fit_dat", "fit_oe"])
 
 
+# ------------------------------------------------------------------------------------------------ whole PHY, op-mode changes
+_PHY_MODES = ["directed", "directed", "chatter", "directed", "async"]
+
+
+class _PhyStim:
+    """Per-usb_io-cycle stimulus for the whole GatewarePHY with the operating mode changing WHILE it transmits
+    (Lean sub-model 7 = `FsPhy.step phase`).  Row = [op_mode, tx_valid, tx_data, term_select, dp_pulldown, dm_pulldown].
+
+    mode "directed": a UTMI producer obeying the handshake sends short packets (many with stuffed bits); for every
+                     packet a plan says where op_mode leaves normal mode, anchored at an event of the transmission and
+                     offset by a number of usb_io cycles that steps through its whole range (stride 37, coprime to the
+                     range, so consecutive packets / cases visit every offset):
+                       "gap"   0..15 cycles before tx_valid rises (tx_valid raised while not in normal mode)
+                       "rise"  0..55 cycles after tx_valid rose (pipeline latency, SYNC on the wire, first data bits)
+                       "mid"   0..39 cycles after a byte other than the last was accepted (mid-byte, stuffed bits)
+                       "last"  0..39 cycles after the last byte was put on tx_data (in the last byte)
+                       "fall"  0..87 cycles after tx_valid fell (the ~11 bit times in which last byte, stuffed bits and
+                               EOP drain, every usb_io cycle of the SE0 SE0 J, and just after)
+                     then a chain of 1..3 further mode changes (to 1, 2, 3 or back to 0, each after 1..200 cycles),
+                     ending in normal mode; tx_valid is held by the producer (it only sees tx_ready = 0), dropped at the
+                     switch, or dropped some cycles into the foreign mode;
+    mode "chatter":  as "directed" but op_mode flips between two modes every 1..6 cycles for a while (back and forth);
+    mode "async":    all six inputs change at random usb_io cycles.
+    The pull-up / pull-down requests change at random cycles in every mode (also mid-packet)."""
+
+    RANGES = {"gap": 16, "rise": 56, "mid": 40, "last": 40, "fall": 88}
+
+    def __init__(self, rng, mode, phase, big):
+        self.rng, self.mode, self.phase, self.big = rng, mode, phase, big
+        self.op, self.valid, self.data = 0, 0, 0
+        self.term, self.dpd, self.dmd = rng.below(2), rng.below(2), rng.below(2)
+        self.p_pull = rng.choice([1, 4, 12])
+        self.queue, self.npk = [], 0
+        self.gap = rng.range(1, 10)
+        self.garbage = rng.chance(60)
+        self.nxt = None
+        self.sched = []            # [(cycle, op_mode)] pending mode changes, ascending
+        self.drop_at = None        # cycle from which tx_valid is forced low (the SIE abandons the packet)
+        self.ctr = {a: rng.below(1000) for a in self.RANGES}
+        self.plan = None
+        self.nbytes = 0
+        self.acc = 0
+        self.tags = set()
+        self.p_toggle = rng.choice([2, 5, 12])
+        self.adrop = False
+
+    def usb_cycle_start(self, k):
+        return k == 0 or (k - 1) % 4 == self.phase
+
+    # -- planning
+    def _offset(self, anchor):
+        r = self.RANGES[anchor]
+        self.ctr[anchor] += 1
+        return (self.ctr[anchor] * 37) % r
+
+    def _dur(self):
+        rng = self.rng
+        return rng.weighted([(2, 1), (4, rng.range(2, 8)), (4, rng.range(9, 48)), (3, rng.range(49, 200))])
+
+    def _make_plan(self, n):
+        rng = self.rng
+        anchor = rng.weighted([(1, "gap"), (2, "rise"), (3, "mid"), (2, "last"), (5, "fall"), (1, "none")])
+        if anchor == "mid" and n < 2:
+            anchor = "fall"
+        j = rng.below(n - 1) if anchor == "mid" else None
+        first = rng.weighted([(5, 1), (2, 2), (2, 3)])
+        seq = [(first, self._dur())]
+        if self.mode == "chatter":
+            other = rng.choice([m for m in (0, 1, 2, 3) if m != first])
+            for i in range(rng.range(4, 24)):
+                seq.append((other if i % 2 == 0 else first, rng.range(1, 6)))
+        else:
+            for _ in range(rng.weighted([(5, 0), (3, 1), (2, 2)])):
+                nm = rng.choice([m for m in (0, 1, 2, 3) if m != seq[-1][0]])
+                seq.append((nm, self._dur()))
+        txv = rng.weighted([(5, "hold"), (3, "drop"), (2, "droplater")])
+        return {"anchor": anchor, "j": j, "off": self._offset(anchor) if anchor != "none" else 0, "seq": seq, "txv": txv}
+
+    def _fire(self, k, anchor, j=None):
+        """the anchor event of the current plan happens in usb_io cycle k"""
+        pl = self.plan
+        if pl is None or pl["anchor"] != anchor or (anchor == "mid" and pl["j"] != j) or pl.get("fired"):
+            return
+        pl["fired"] = True
+        t = k + pl["off"]
+        for m, d in pl["seq"]:
+            self.sched.append((t, m))
+            t += d
+        self.sched.append((t, 0))
+        self.adrop = self.rng.chance(30)     # tx_valid falls in any usb_io cycle, not only after a usb edge
+        if pl["txv"] == "drop":
+            self.drop_at = k + pl["off"]
+        elif pl["txv"] == "droplater":
+            self.drop_at = k + pl["off"] + self.rng.range(1, 60)
+        self.tags.add("phy:plan:" + anchor)
+        self.tags.add("phy:plan:to=%d" % pl["seq"][0][0])
+        self.tags.add("phy:plan:" + pl["txv"])
+
+    # -- per cycle
+    def row(self, k):
+        rng = self.rng
+        if self.mode == "async":
+            if rng.chance(self.p_toggle):
+                self.valid ^= 1
+            if rng.chance(20):
+                self.data = rng.choice([0xFF, 0x7F, 0xFE, 0xFC, 0x00, rng.below(256), rng.below(256)])
+            if rng.chance(2):
+                self.op = rng.choice([0, 0, 0, 1, 1, 2, 3])
+        else:
+            while self.sched and self.sched[0][0] <= k:
+                self.op = self.sched.pop(0)[1]
+            if self.drop_at is not None and k >= self.drop_at and (self.adrop or self.usb_cycle_start(k)):
+                if self.valid:
+                    # the SIE abandons the packet
+                    self.valid, self.queue, self.nxt, self.plan = 0, [], None, None
+                    self.gap = rng.range(12, 40)
+                    self.tags.add("phy:tx_valid-dropped-by-plan")
+                self.drop_at = None
+            if self.usb_cycle_start(k) and not self.valid:
+                if self.plan is None and not self.sched:
+                    # plan the next packet now, so that a "gap" switch can precede the rise
+                    n = rng.weighted([(4, 1), (4, 2), (3, rng.range(3, 5)), (1, rng.range(5, 12 if self.big else 7))])
+                    self.nbytes = n
+                    self.plan = self._make_plan(n)
+                    if self.plan["anchor"] == "gap":
+                        self.gap = max(self.gap, 5)
+                if self.gap > 0:
+                    self.gap -= 1
+                    if self.garbage:
+                        self.data = rng.below(256)
+                    if self.plan is not None and self.plan["anchor"] == "gap" and 4 * self.gap <= 16:
+                        self._fire(k + 4 * self.gap - 16, "gap")
+                elif self.plan is not None:
+                    kind = rng.weighted([(4, "ones"), (3, "edge"), (3, "rand")])
+                    n = self.nbytes
+                    if kind == "ones":
+                        self.queue = [0xFF] * n
+                    elif kind == "edge":
+                        self.queue = [rng.choice([0x3F, 0x7E, 0xFC, 0xF8, 0x1F, 0xFF, 0x7F, 0xFE, 0xE0, 0x07, 0x80, 0x01])
+                                      for _ in range(n)]
+                    else:
+                        self.queue = rng.bytes(n)
+                    if rng.chance(20):
+                        self.queue[-1] = 0xFC
+                    self.npk += 1
+                    self.acc = 0
+                    self.valid, self.data = 1, self.queue[0]
+                    self._fire(k, "rise")
+                    if n == 1:
+                        self._fire(k, "last")
+        if rng.chance(self.p_pull):
+            which = rng.below(3)
+            if which == 0:
+                self.term ^= 1
+            elif which == 1:
+                self.dpd ^= 1
+            else:
+                self.dmd ^= 1
+        return [self.op, self.valid, self.data, self.term, self.dpd, self.dmd]
+
+    def feedback(self, k, ready):
+        """tx_ready as observed in usb_io cycle k (before its tick); the usb edge ends the cycles k % 4 == phase"""
+        if self.mode == "async" or k % 4 != self.phase or not (ready and self.valid):
+            return
+        self.queue.pop(0) if self.queue else None
+        j = self.acc
+        self.acc += 1
+        if self.queue:
+            self.nxt = (1, self.queue[0])
+            self._fire(k + 1, "mid", j)
+            if len(self.queue) == 1:
+                self._fire(k + 1, "last")
+        else:
+            self.nxt = (0, self.rng.below(256) if self.garbage else 0)
+            self.gap = self.rng.weighted([(6, self.rng.range(18, 36)), (2, self.rng.range(0, 17))])
+            self._fire(k + 1, "fall")
+            self.plan = None
+
+    def apply_pending(self):
+        if self.nxt is not None:
+            self.valid, self.data = self.nxt
+            self.nxt = None
+
+
+def build_phy():
+    """The real GatewarePHY on the I/O stub plus handles on the TxPipeline / TxBitstuffer instances it creates inside
+    `elaborate` (for coverage tags only: which phase of a transmission a mode change hit).  Classes are wrapped for
+    the duration of the elaboration, as in `build_rx_pipeline`; nothing of the gateware is changed."""
+    from amaranth.sim import Simulator
+    import luna.gateware.interface.gateware_phy.phy as Pm
+    import luna.gateware.interface.gateware_phy.transmitter as Tm
+    cap = {}
+
+    def mk(name, cls):
+        class Spy(cls):
+            def __init__(self, *a, **k):
+                super().__init__(*a, **k)
+                cap.setdefault(name, []).append(self)
+        Spy.__name__ = cls.__name__
+        Spy.__qualname__ = cls.__qualname__
+        return Spy
+
+    o_tx, o_bs = Pm.TxPipeline, Tm.TxBitstuffer
+    Pm.TxPipeline = mk("TxPipeline", o_tx)
+    Tm.TxBitstuffer = mk("TxBitstuffer", o_bs)
+    try:
+        io = _IO()
+        dut = Pm.GatewarePHY(io=io)
+        top = sim._Wrap(dut, ["usb_io", "usb"])
+        s = Simulator(top)          # elaborates
+    finally:
+        Pm.TxPipeline, Tm.TxBitstuffer = o_tx, o_bs
+    return dut, io, s, (cap.get("TxPipeline") or [None])[0], (cap.get("TxBitstuffer") or [None])[0]
+
+
+def run_phy(desc):
+    """kind "phy": the real GatewarePHY with op_mode (and the pull-up / pull-down requests) changing at any usb_io
+    cycle of a transmission, compared usb_io cycle by usb_io cycle with the Lean model `FsPhy.step phase` (the transmit
+    chain inside the op-mode switch) on tx_ready, d_p.o, d_n.o, oe, pullup.o, pulldown.o.  The monitor judges EVERY
+    usb_io cycle: in a cycle whose op_mode is non-driving both output enables are low -- in that same cycle: the switch
+    is combinational in the code as it is (latency 0, measured: tag phy:nondriving-same-cycle)."""
+    rng = Rng(desc["seed"])
+    phase = desc.get("phase", 0)
+    mode = desc.get("mode", "directed")
+    n = desc.get("cycles", 2400)
+    rows = [list(r) for r in desc["stimulus"]] if desc.get("stimulus") else None
+    stim = _PhyStim(rng.fork("stim"), mode, phase, desc.get("big", 0))
+    dut, io, s, txp, bs = build_phy()
+    ins = [dut.op_mode, dut.tx_valid, dut.tx_data, dut.term_select, dut.dp_pulldown, dut.dm_pulldown]
+    outs = [dut.tx_ready, io.d_p.o, io.d_n.o, io.d_p.oe, io.pullup.o, io.pulldown.o]
+    hidden = [txp.o_oe, txp.o_usbp, txp.o_usbn, txp.fit_oe] if txp is not None else []
+    if bs is not None:
+        hidden.append(bs.o_stall)
+    P = 1e-6
+    s.add_clock(P, domain="usb_io")
+    s.add_clock(4 * P, phase=P / 2 + phase * P, domain="usb")
+    inputs, outputs, dnoe, hid = [], [], [], []
+
+    async def tb(ctx):
+        ctx.set(io.d_p.i, 1)
+        ctx.set(io.d_n.i, 0)
+        ctx.set(io.vbus_valid.i, 1)
+        k = 0
+        while k < (len(rows) if rows is not None else n):
+            if rows is not None:
+                r = rows[k]
+            else:
+                if stim.usb_cycle_start(k):
+                    stim.apply_pending()
+                r = stim.row(k)
+            for sig, v in zip(ins, r):
+                ctx.set(sig, v)
+            o = [ctx.get(x) for x in outs]
+            dnoe.append(ctx.get(io.d_n.oe))
+            hid.append([ctx.get(x) for x in hidden])
+            if rows is None:
+                stim.feedback(k, o[0])
+            inputs.append(list(r))
+            outputs.append(o)
+            await ctx.tick("usb_io")
+            k += 1
+
+    s.add_testbench(tb)
+    s.run()
+    fails = []
+    tags = {"phy", "phy:phase=%d" % phase, "phy:" + mode} | stim.tags
+
+    def fail(k, sig, what):
+        if sum(1 for f in fails if f["sig"] == sig) < 2:
+            fails.append({"cycle": k, "sig": sig, "what": what})
+
+    prev = None
+    since = 0          # usb_io cycles since op_mode last changed
+    for k, (r, o) in enumerate(zip(inputs, outputs)):
+        op, txv, txd, term, dpd, dmd = r
+        rdy, dpo, dno, dpoe, pu, pd = o
+        since = since + 1 if prev is not None and prev[0] == op else 0
+        if dpoe != dnoe[k]:
+            fail(k, "oe-differ", "d_p.oe != d_n.oe at usb_io cycle %d" % k)
+        if op == 1 and (dpoe or dnoe[k]):
+            fail(k, "drives-in-nondriving", "usb_io cycle %d: op_mode = 1 (UTMI non-driving, for %d cycles) but D+/D- are "
+                 "driven (d_p.oe=%d d_n.oe=%d d_p.o=%d d_n.o=%d, tx_valid=%d)" % (k, since + 1, dpoe, dnoe[k], dpo, dno, txv))
+        if op == 2 and txv and not (dpoe and dnoe[k] and dpo == (txd & 1) and dno == 1 - (txd & 1)):
+            fail(k, "raw-drive", "usb_io cycle %d: op_mode = 2 (no bit-stuffing/NRZI) with tx_valid: expected raw drive of "
+                 "tx_data[0]=%d, got d_p.o=%d d_n.o=%d oe=%d" % (k, txd & 1, dpo, dno, dpoe))
+        if pu != term:
+            fail(k, "pullup", "usb_io cycle %d: pullup.o=%d but term_select=%d (op_mode=%d, dp/dm_pulldown=%d/%d)"
+                 % (k, pu, term, op, dpd, dmd))
+        if pd != (dpd | dmd):
+            fail(k, "pulldown", "usb_io cycle %d: pulldown.o=%d but dp_pulldown|dm_pulldown=%d (op_mode=%d)"
+                 % (k, pd, dpd | dmd, op))
+        # coverage, from the real transmitter's own outputs (hidden behind the op-mode switch)
+        h = hid[k]
+        if h:
+            t_oe, t_p, t_n, fit_oe = h[:4]
+            stall = h[4] if len(h) > 4 else 0
+            eop = t_oe and not t_p and not t_n
+            if op != 0 and t_oe:
+                tags.add("phy:op%d-while-tx-drives" % op)
+                if eop:
+                    tags.add("phy:op%d-during-se0" % op)
+                if fit_oe and stall:
+                    tags.add("phy:op%d-during-stuffed-bit" % op)
+                if not fit_oe:
+                    tags.add("phy:op%d-while-draining" % op)
+            if op != 0 and fit_oe and not t_oe:
+                tags.add("phy:op%d-before-sync-on-wire" % op)
+            if prev is not None and prev[0] != op:
+                tags.add("phy:change-%d-to-%d" % (prev[0], op))
+                if t_oe:
+                    tags.add("phy:change-to-%d-while-tx-drives" % op)
+                    if eop:
+                        tags.add("phy:change-to-%d-during-se0" % op)
+                    if op == 1 and not dpoe:
+                        tags.add("phy:nondriving-same-cycle")      # latency 0 from op_mode to oe
+            if prev is not None and prev[3:] != r[3:] and (t_oe or dpoe):
+                tags.add("phy:pull-request-change-while-transmitting")
+        if rdy:
+            tags.add("phy:ready")
+        prev = r
+    return Case([7, phase], inputs, outputs, fails[:6], sorted(tags), dict(desc),
+                ["op_mode", "tx_valid", "tx_data", "term_select", "dp_pulldown", "dm_pulldown"],
+                ["tx_ready", "d_p.o", "d_n.o", "oe", "pullup.o", "pulldown.o"])
+
+
+
 # ------------------------------------------------------------------------------------------------ cycle-level rx
 _RX_SPIED = ["RxClockDataRecovery", "RxNRZIDecoder", "RxPacketDetect", "RxBitstuffRemover", "RxShifter",
              "AsyncFIFOBuffered"]
@@ -1079,4 +1440,4 @@ def _run_rxd(desc, rows, metas, dut, s, pf, ff, phase, mode):
 
 def run_case(desc):
     return {"tx": run_tx, "rx": run_rx, "glue": run_glue, "txc": run_txcycle, "txp": run_txcycle,
-            "rxc": run_rxcycle, "rxd": run_rxcycle}[desc["kind"]](desc)
+            "rxc": run_rxcycle, "rxd": run_rxcycle, "phy": run_phy}[desc["kind"]](desc)
